@@ -37,6 +37,9 @@ ASSUMPTIONS = [
     'explicit watchers (bound method, functools.partial of a bound method, watcher of the Parameter attribute bounds), an attribute in __slots__, dependencies depends("p", "q") / depends("a.x") / depends("mid.leaf.x") / depends("n", "mid.z"), batched param.update, one-level dependencies depends("p") / depends("a.x") / depends("a.y", "b.y") with watch=True, explicit bound-method watchers',
     'deeper dependency paths (their parent-notification callback is a closure: not picklable), watchers with what != value, '
     'lambdas, references (allow_refs), async methods and class-level watchers are outside the model',
+    'a copy taken inside an open batch (case key inbatch): the model has no batch state on objects, it sees the completed batched update followed by the '
+    'copy; the harness takes the copy inside `batch_call_watchers(obj)` after the assignments and compares the copy with a twin whose batch was completed, '
+    'and what the original delivers on leaving the batch with what the twin delivered (a difference there is reported as a mismatch, not as a counterexample)',
 ]
 RULE = ('histories of object creation, sets, in-place mutations, per-instance Parameter edits, ordinary attributes, explicit '
         'watchers and sub-object attachment/detachment (pre) x copy.deepcopy and pickle protocols 2-5 of the root x histories '
@@ -44,7 +47,7 @@ RULE = ('histories of object creation, sets, in-place mutations, per-instance Pa
         'both graphs at copy time and after every later operation, invocation logs with the side of every invoked object, '
         'and the same copy-side operations on a twin of the original. non-trivial = the copy succeeded, >=2 post operations, '
         'at least one watcher in the copied graph; distinct = distinct canonical case')
-COVERAGE_TARGETS = ['copy:ok', 'pre:duplicate-watcher', 'pre:same-class-cross-watcher', 'root:Root3', 'pre:depth2-dependency-wired', 'post:update-batch', 'pre:multi-name-watcher', 'post:replace-leaf-on-copy', 'post:replace-mid-on-copy', 'pre:slot-watcher', 'pre:partial-watcher', 'pre:slots-attribute', 'post:pedit-bounds-with-slot-watcher', 'selector:set-after-copy', 'selector:named-after-copy', 'selector:own-copy-before-copy', 'mech:deepcopy', 'mech:pickle2', 'mech:pickle3', 'mech:pickle4', 'mech:pickle5',
+COVERAGE_TARGETS = ['copy:ok', 'pre:copy-inside-open-batch', 'pre:copy-inside-open-batch-on-subobject', 'post:copy-taken-in-batch-fires-at-once', 'pre:duplicate-watcher', 'pre:same-class-cross-watcher', 'root:Root3', 'pre:depth2-dependency-wired', 'post:update-batch', 'pre:multi-name-watcher', 'post:replace-leaf-on-copy', 'post:replace-mid-on-copy', 'pre:slot-watcher', 'pre:partial-watcher', 'pre:slots-attribute', 'post:pedit-bounds-with-slot-watcher', 'selector:set-after-copy', 'selector:named-after-copy', 'selector:own-copy-before-copy', 'mech:deepcopy', 'mech:pickle2', 'mech:pickle3', 'mech:pickle4', 'mech:pickle5',
                     'root:Top', 'root:Plain', 'root:Sub', 'pre:sub-attached-with-dependency', 'pre:sub-attached-no-dependency',
                     'pre:detached-again', 'pre:pedit', 'pre:attr', 'pre:explicit-watcher', 'pre:cross-object-watcher',
                     'post:orig', 'post:copy', 'post:attach-new-sub', 'post:log-nonempty']
@@ -494,19 +497,58 @@ def run_impl(case):
     try:
         _reset_class_selectors()
         main, twin = _Side(), _Side()
-        for op in case['pre']:
+        pre = list(case['pre'])
+        # `inbatch`: the last operation of the pre-history is a batched update; on the main side the copy is taken
+        # INSIDE that batch (`with batch_call_watchers(obj): obj.p = v; ..; copy`), the twin completes the batch first
+        batch_op = pre.pop() if case.get('inbatch') else None
+        for op in pre:
             main.run(op)
             twin.run(op)
+        cm = None
+        if batch_op is not None:
+            if batch_op['op'] != 'update':
+                raise RuntimeError('inbatch needs an update as last pre operation')
+            tlog = twin.run(batch_op)
+            bobj = main.ref(batch_op['o'])
+            del LOG[:]
+            cm = param.parameterized.batch_call_watchers(bobj)
+            cm.__enter__()
+            try:
+                for k, v in batch_op['kvs']:
+                    setattr(bobj, k, main.arg(v))
+            except BaseException:
+                cm.__exit__(None, None, None)
+                raise
+            if LOG:
+                cm.__exit__(None, None, None)
+                raise RuntimeError('a watcher ran inside the open batch')
+
+        def leave_batch():
+            """the original leaves its batch: it must deliver what the completed batch of the twin delivered"""
+            del LOG[:]
+            cm.__exit__(None, None, None)
+            o1, to = _order(main.ref(case['root'])), _order(twin.ref(case['root']))
+            got = [[_label(o1, obj), meth] for obj, meth in LOG]
+            want = [[_label(to, obj), meth] for obj, meth in tlog]
+            if got != want:
+                raise RuntimeError(f'the original left the batch delivering {got}, a batch without a copy inside delivers {want}')
+
         root, troot = main.ref(case['root']), twin.ref(case['root'])
         obs = {'copy_err': None, 'orig_at': snapshot(root), 'copy_at': None, 'shared': 0, 'post': []}
         try:
             c = _copy(root, case['mech'])
         except AttributeError:
             obs['copy_err'] = 'AttributeError'
+            if cm is not None:
+                cm.__exit__(None, None, None)
             return obs
         except Exception as e:
             obs['copy_err'] = 'other:' + type(e).__name__
+            if cm is not None:
+                cm.__exit__(None, None, None)
             return obs
+        if cm is not None:
+            leave_batch()
         main.cp, twin.cp = c, troot
         obs['copy_at'] = snapshot(c)
         o1, o2 = _order(root), _order(c)
@@ -529,10 +571,10 @@ def run_impl(case):
                     entries.append(['none', 0, meth])
             tw = None
             if side != 'orig':
-                tlog = twin.run(p['op'])
+                tlog2 = twin.run(p['op'])
                 if side == 'copy':
                     to = _order(troot)
-                    tw = {'log': [[_label(to, obj), meth] for obj, meth in tlog], 'snap': snapshot(troot)}
+                    tw = {'log': [[_label(to, obj), meth] for obj, meth in tlog2], 'snap': snapshot(troot)}
             obs['post'].append({'side': side, 'log': entries, 'orig': snapshot(root), 'copy': snapshot(c), 'twin': tw})
         return obs
     except Exception as e:
@@ -597,9 +639,13 @@ def watchs(o, p, target):
     return {'op': 'watchSlot', 'o': o, 'p': p, 'target': target, 'cb': 'cb'}
 
 
-def case(pre, root, mech, post):
-    return {'policy': policy(), 'classes': CLASSES, 'pre': pre, 'root': root, 'mech': mech,
-            'post': [{'side': s, 'op': o} for s, o in post]}
+def case(pre, root, mech, post, inbatch=False):
+    """inbatch: the last pre operation is an `update`; the implementation takes the copy inside that batch"""
+    c = {'policy': policy(), 'classes': CLASSES, 'pre': pre, 'root': root, 'mech': mech,
+         'post': [{'side': s, 'op': o} for s, o in post]}
+    if inbatch:
+        c['inbatch'] = True
+    return c
 
 
 SUB, TOP, PLAIN, LEAF, MID, ROOT3 = 0, 1, 2, 3, 4, 5
@@ -671,6 +717,15 @@ def directed():
                     ('copy', set_(CP('mid', 'leaf'), 'x', 1))])
         # both slots, one sub-object shared by two parents
         yield case([new(SUB, x=1), new(SUB, y=2), new(TOP, a=R(H(0)), b=R(H(1))), new(TOP, a=R(H(0)))], H(2), mech, [])
+        # the copy is taken INSIDE an open batch (534cb04): the copy is not in batch mode and has nothing queued — its
+        # watchers fire at once, like those of an object whose batch was completed; the original delivers its queue once
+        yield case([new(SUB, x=1), watch(H(0), ['x', 'y'], H(0)), update(H(0), x=3, y=4)], H(0), mech,
+                   [('copy', set_(CP(), 'x', 5)), ('orig', set_(H(0), 'x', 6)), ('copy', update(CP(), x=1, y=2)), ('orig', update(H(0), x=2, y=1)),
+                    ('copy', set_(CP(), 'y', 7))], inbatch=True)
+        yield case([new(SUB, x=1), new(TOP, a=R(H(0)), n=3), update(H(0), x=2)], H(1), mech,          # the batch is open on the sub-object
+                   [('copy', set_(CP('a'), 'x', 5)), ('orig', set_(H(0), 'x', 6)), ('copy', set_(CP(), 'n', 4)), ('copy', set_(CP('a'), 'y', 1))], inbatch=True)
+        yield case([new(SUB, x=1), new(TOP, a=R(H(0)), n=3), watch(H(1), ['n'], H(1)), update(H(1), n=7)], H(1), mech,
+                   [('copy', set_(CP(), 'n', 9)), ('orig', set_(H(1), 'n', 8)), ('copy', set_(CP('a'), 'x', 5)), ('copy', update(CP(), n=2))], inbatch=True)
 
 
 def _random_case(rng, mech):
@@ -786,6 +841,16 @@ def _random_case(rng, mech):
         elif op['op'] in ('watch', 'watchPartial', 'watchSlot') and nd['cls'] == SUB and rng.random() < 0.5:
             op = dict(op, target=H(root))                            # the root watches a sub-object explicitly
         pre.append(op)
+    # sometimes the copy is taken inside an open batch on the root or on one of the other objects
+    inbatch = False
+    if rng.random() < 0.15:
+        h = rng.choice([root, root] + list(range(len(nodes))))
+        ints = ['x', 'y'] if nodes[h]['cls'] == SUB else ['n']
+        free_ints = [p for p in ints if p not in nodes[h]['const']]
+        if free_ints:
+            ps = free_ints if rng.random() < 0.5 else [rng.choice(free_ints)]
+            pre.append(update(H(h), **{p: (rng.randint(0, 5) if p != 'n' else rng.randint(0, 50)) for p in ps}))
+            inbatch = True
     # post histories
     import copy as _c
     cn = _c.deepcopy(nodes)            # copy-side shadow (indices are pre handles, only root-reachable ones are used)
@@ -820,7 +885,7 @@ def _random_case(rng, mech):
             if op['op'] == 'set' and isinstance(op['a'], dict):
                 fresh_owner[op['a']['ref']['h']] = side
         post.append((side, op))
-    return case(pre, H(root), mech, post)
+    return case(pre, H(root), mech, post, inbatch=inbatch)
 
 
 def _random_case3(rng, mech):
@@ -952,6 +1017,12 @@ def tags(case, impl):
         if len(set(id(w) for o in snap for _, ws in o['watchers'] for w in ws)) >= 0 and any(
                 sum(1 for _, ws2 in o['watchers'] if w in ws2) > 1 for o in snap for _, ws in o['watchers'] for w in ws):
             t.append('pre:multi-name-watcher')
+        if case.get('inbatch'):
+            t.append('pre:copy-inside-open-batch')
+            if case['pre'][-1]['o'] != case['root']:
+                t.append('pre:copy-inside-open-batch-on-subobject')
+            if any(p['side'] == 'copy' and po['log'] for p, po in zip(case['post'], impl.get('post', []))):
+                t.append('post:copy-taken-in-batch-fires-at-once')
         for p, po in zip(case['post'], impl.get('post', [])):
             t.append('post:' + p['side'])
             if p['op']['op'] == 'update':
@@ -986,8 +1057,10 @@ def shrink(case):
     for i in range(len(post)):
         if post[i]['side'] != 'new':
             yield dict(case, post=post[:i] + post[i + 1:])
+    if case.get('inbatch'):
+        yield {k: v for k, v in case.items() if k != 'inbatch'}
     for i in range(len(pre)):
-        if pre[i]['op'] != 'new':
+        if pre[i]['op'] != 'new' and not (case.get('inbatch') and i == len(pre) - 1):
             yield dict(case, pre=pre[:i] + pre[i + 1:])
     if case['mech'] != 'deepcopy':
         yield dict(case, mech='deepcopy')
